@@ -113,6 +113,9 @@ func (conn *Conn) recv() {
 			req := new(SrvReq)
 			select {
 			case req.Rc = <-conn.rchan:
+				/* forget the reply this buffer carried last time: the post-handlers
+				 * of a request that is cancelled before it is answered look at Rc.Type */
+				req.Rc.Type = 0
 			default:
 				req.Rc = NewFcall(conn.Msize)
 			}
